@@ -1152,7 +1152,9 @@ func (r *RouteTable) resyncIface(nl netlinkshim.Interface, ifaceName string) err
 				"flags":       routeFilterFlags,
 			}).Error("Error listing routes")
 			r.nl.MarkHandleForReopen()
-			return nil
+			// Report the failure so that the interface stays queued for a rescan;
+			// otherwise our view of its routes would silently stay stale.
+			return filteredErr
 		} else {
 			r.logCxt.WithError(filteredErr).WithField("iface", ifaceName).Debug(
 				"Failed to list routes; interface down/gone.")
